@@ -170,10 +170,30 @@ def _slot_worker(a):
            {"t": "nick", "id": cid, "name": "nick"}]
     if rng.random() < 0.5:
         pre += [{"t": "host", "id": cid, "name": "h.example"}, {"t": "ident", "id": cid, "name": "id"}]
-    mid = [{"t": "reload", "services": t1}, {"t": "reload", "services": t2}]
+    # variant with two clients waiting on A: between the reloads A gives its (owed) answer to the first of them - whatever
+    # bookkeeping that triggers, the second client still waits on A only, and nothing B says is owed to it
+    two = rng.random() < 0.6
+    cid2 = cid + 1
+    if two:
+        if pA == "combined":
+            pA = "login-ipr"
+            t0 = [(A, pA), (keep, "dronecheck")]
+            cfg = proto.Config(t0, timeout=3600)
+        if not any(e["t"] == "host" for e in pre):
+            pre += [{"t": "host", "id": cid, "name": "h.example"}, {"t": "ident", "id": cid, "name": "id"}]
+        pre += [{"t": "announce", "id": cid2, "ip": "1.2.3.5", "port": 1001}, {"t": "password", "id": cid2, "text": "+x bob pw"},
+                {"t": "host", "id": cid2, "name": "h3.example"}, {"t": "ident", "id": cid2, "name": "id2"}]
+        mid_reply = [{"t": "reply", "svc": A, "tag": "%x_2" % cid2, "text": rng.choice(["NO go away", "OK", "OK bob", "AGAIN retry"])}] if rng.random() < 0.8 else \
+                    [{"t": "unlinked", "svc": A, "tag": "%x_2" % cid2, "text": "Server not online"}]
+    else:
+        mid_reply = []
+    mid = [{"t": "reload", "services": t1}] + mid_reply + [{"t": "reload", "services": t2}]
     post = [{"t": "userinfo", "id": cid, "user": "u", "real": "r"}, {"t": "host", "id": cid, "name": "h2.example"}, {"t": "ident", "id": cid, "name": "id"},
             {"t": "stats"}, {"t": "hurry", "id": cid}, {"t": "stats"}]
+    if two:
+        post += [{"t": "hurry", "id": cid2}, {"t": "stats"}]
     events = pre + mid + post
+    ins_at = len(pre) + len(mid)
     res = {"viol": [], "stats": {"slot_reuse_scenarios": 1, "stray_lines_inserted": 0, "stray_kinds": {}, "pairs_compared": 0, "steps_compared": 0,
                                  "strays_hitting_live_id": 0, "strays_stale_serial": 0, "strays_malformed_tag": 0, "strays_wrong_service": 0},
            "nontrivial": True, "hash": vcommon.h(["slot", seed]), "inconc": []}
@@ -190,14 +210,17 @@ def _slot_worker(a):
     if tag is None:
         res["inconc"].append("slot scenario sent no query")
         return res
+    if two:
+        tag = "%x_1" % cid      # the first client: still waiting on the retired A when B appears
+        res["stats"]["slot_reuse_two_waiters"] = 1
     views = [gen.View({cid: {"tag": tag, "awaiting": {A}}}, [], [])] * (len(events) + 1)
     for svc in [B] + ([C] if len(t2) > 2 else []):
         for text in ("OK mallory:666", "NO go away", "MORE prove it", "OK"):
             st = {"t": "reply", "svc": svc, "tag": tag, "text": text}
-            bad = compare_run(b, cfg, base, events, {len(pre) + 2: st}, res["stats"], views)
+            bad = compare_run(b, cfg, base, events, {ins_at: st}, res["stats"], views)
             if bad:
                 res["viol"].append(("C04", bad[0], bad[0] + ":service-added-by-reload", "%s\nstray line %s inserted after the reloads %s -> %s -> %s\n%s" % (
-                    bad[1], proto.render(st), t0, t1, t2, bad[2]), {"config": cfg.to_json(), "events": events, "insert_at": len(pre) + 2, "stray": st}))
+                    bad[1], proto.render(st), t0, t1, t2, bad[2]), {"config": cfg.to_json(), "events": events, "insert_at": ins_at, "stray": st}))
                 return res
     return res
 
